@@ -38,10 +38,23 @@ inductive Ev where
   /-- `\item` / `\item[label]`; `tag` only names the output entry (`item` in enumerate, `bullet` elsewhere) -/
   | item (tag : String) (hasTerm : Bool)
   | eqnBegin
+  /-- the end of an `eqnarray` row: `\\`, `\\*` or `\\[len]` (the star and the length do not matter for numbering) -/
   | eqRow
   | nonumber
   /-- `\appendix` of a class whose appendix unit is `ctr` (`chapter` in book, `section` in article) -/
   | appendix (ctr : Name)
+  /-- `\arabic{c}`, `\roman{c}`, `\Roman{c}`, `\alph{c}`, `\Alph{c}` in running text (`Numbering.py`) -/
+  | show (fmt : String) (c : Name)
+  /-- `\thec` in running text -/
+  | showThe (c : Name)
+  /-- `\renewcommand{\thec}{…}` at the top level: the body as literal text, `\arabic{..}`-style calls and `\the…` macros -/
+  | renewThe (c : Name) (body : List Piece)
+  /-- `\setcounter{n}{\value{m}}` -/
+  | setcv (n m : Name)
+  /-- `\addtocounter{n}{\value{m}}` -/
+  | addcv (n m : Name)
+  /-- the `--counter n v` option (`config['counters']['counters']`): `Document.invoke` does `counters[n].setcounter(v-1)` -/
+  | initc (n : Name) (v : Int)
   deriving DecidableEq, Repr
 
 structure St where
@@ -109,6 +122,12 @@ def unnumberRow : List Out → List Out
   | [] => []
   | o :: os => if o.tag == "row" then { o with ref := none } :: os else o :: unnumberRow os
 
+/-- `\arabic{c}` … in running text: `tex.textTokens(counters[c].<fmt>)` (reading `counters[c]` creates a missing counter) -/
+def showRep (st : St) (fmt : String) (c : Name) : Except Err St :=
+  match represent (valD st.store c) fmt with
+  | .ok r => .ok { st with store := ensure st.store c, outs := ⟨"show", some r⟩ :: st.outs }
+  | .error e => .error e
+
 def step (st : St) : Ev → Except Err St
   | .construct tag c starred level => numbered st tag c starred level
   | .thm env =>
@@ -148,6 +167,19 @@ def step (st : St) : Ev → Except Err St
   | .appendix ctr =>
     .ok { st with store := setc st.store ctr 0,
                   thes := ("the" ++ ctr, { pieces := [.ref ctr (some "Alph")], trimLeft := false }) :: st.thes }
+  | .show fmt c => showRep st fmt c
+  | .showThe c =>
+    match evalThe (theFuel st.thes) st.thes st.store ("the" ++ c) with
+    | .ok r => .ok { st with outs := ⟨"show", some r⟩ :: st.outs }
+    | .error e => .error e
+  | .renewThe c body =>
+    -- `Context.newcommand` replaces a `TheCounter` class by a `NewCommand`; no `trimLeft` any more
+    .ok { st with thes := ("the" ++ c, { pieces := body, trimLeft := false }) :: st.thes }
+  | .setcv n m =>
+    -- the arguments are parsed first (`\value{m}` reads `counters[m]`), then `counters[n].setcounter(..)`
+    .ok { st with store := setc (ensure st.store m) n (valD st.store m) }
+  | .addcv n m => .ok { st with store := addc (ensure st.store m) n (valD st.store m) }
+  | .initc n v => .ok { st with store := setc st.store n (v - 1) }
 
 /-- pieces of a generated class table: `(isRef, name or text, representation or "")` -/
 def pieceOf (p : Bool × String × String) : Piece :=
